@@ -32,5 +32,15 @@ Theorem C18_strip_comments_partial : forall sql, no_panic (strip_comments sql).
 Proof. exact strip_comments_no_panic. Qed.
 Print Assumptions C18_strip_comments_partial.
 
+(** toColumn (a cast's type name) returns an error for a name it cannot take apart - for every
+    tree: a Go panic before /repo cb978d6, found by the check once its statement list had names
+    with more than three parts *)
+Theorem C18_to_column_partial : forall tn, no_panic (to_column tn).
+Proof.
+  intro tn. unfold to_column. destruct (is_nil tn); [exact I|].
+  destruct (string_items (kid "Names" tn)) as [|a [|b [|c [|d l]]]]; exact I.
+Qed.
+Print Assumptions C18_to_column_partial.
+
 Definition C18_full_statement : Prop :=
   forall e raw src pos, walk_ok raw = true -> no_panic (parse_query e raw src pos).
